@@ -26,7 +26,7 @@ for t in $TARGETS; do
     C=/verif/work/fuzz-corpus-$t-$$; rm -rf "$C"; mkdir -p "$C"
     [ -d fuzz/seeds/$t ] && cp fuzz/seeds/$t/* "$C"/ 2>/dev/null
     A=/verif/replays/C08/fuzz-$t-
-    "$BIN/$t" "$C" -runs="$RUNS" -seed="$LSEED" -len_control=0 -max_len=8192 -timeout=30 -rss_limit_mb=4096 \
+    "$BIN/$t" "$C" -runs="$RUNS" -seed="$LSEED" -len_control=0 -max_len=8192 -timeout=30 -rss_limit_mb=4096 -detect_leaks=0 \
         -artifact_prefix="$A" -print_final_stats=1 >/verif/work/fuzz-$t-$$.log 2>&1
     code=$?
     execs=$(grep -E "stat::number_of_executed_units" /verif/work/fuzz-$t-$$.log | awk '{print $2}')
